@@ -1,7 +1,7 @@
 """Facts about atomica/model.py shared by several property modules (filled from the repository on every run)."""
 import ast
 
-from ..core.loader import AnalysisError, own_nodes, norm
+from ..core.loader import AnalysisError, own_nodes, norm, enclosing_stmt
 from ..core.cfg import CFG
 from ..core.dataflow import ReachingDefs, assigned_value
 from ..core.types import Types
@@ -158,3 +158,96 @@ def enclosing_loops(node):
 
 def self_name(fi):
     return fi.params[0] if fi.params else "self"
+
+
+VIEW_METHODS = {"reshape", "ravel", "view", "squeeze", "transpose", "swapaxes"}
+VIEW_FUNCS = {"np.asarray", "np.asanyarray", "np.transpose", "np.atleast_1d", "np.atleast_2d", "np.squeeze", "np.ravel"}
+
+
+def _rooted_at(e, root):
+    while isinstance(e, (ast.Attribute, ast.Subscript)):
+        e = e.value
+    return isinstance(e, ast.Name) and e.id == root
+
+
+def is_view_of(e, root):
+    """True if ``e`` denotes a numpy view (not a copy, not a scalar) of storage reachable from the name ``root``."""
+    if isinstance(e, ast.Subscript) and _rooted_at(e.value, root) and isinstance(e.value, (ast.Attribute, ast.Subscript)):
+        idx = e.slice.elts if isinstance(e.slice, ast.Tuple) else [e.slice]
+        return any(isinstance(i, ast.Slice) for i in idx)
+    if isinstance(e, ast.Attribute) and e.attr == "T":
+        return is_view_of(e.value, root)
+    if isinstance(e, ast.Call) and isinstance(e.func, ast.Attribute) and e.func.attr in VIEW_METHODS:
+        return is_view_of(e.func.value, root)
+    if isinstance(e, ast.Call) and ast.unparse(e.func) in VIEW_FUNCS and e.args:
+        return is_view_of(e.args[0], root)
+    return False
+
+
+def _view_preserving_name(e):
+    """Name n if ``e`` is n, n.T, n.reshape(..) ... (a view of whatever n is)."""
+    if isinstance(e, ast.Name):
+        return e.id
+    if isinstance(e, ast.Attribute) and e.attr == "T":
+        return _view_preserving_name(e.value)
+    if isinstance(e, ast.Call) and isinstance(e.func, ast.Attribute) and e.func.attr in VIEW_METHODS:
+        return _view_preserving_name(e.func.value)
+    if isinstance(e, ast.Call) and ast.unparse(e.func) in VIEW_FUNCS and e.args:
+        return _view_preserving_name(e.args[0])
+    if isinstance(e, ast.Subscript):
+        idx = e.slice.elts if isinstance(e.slice, ast.Tuple) else [e.slice]
+        if any(isinstance(i, ast.Slice) for i in idx):
+            return _view_preserving_name(e.value)
+    return None
+
+
+def self_view_inplace(repo, fi, root=None, skip_attrs=()):
+    """
+    (n_view_bindings, hits): locals bound (on some path) to a view of storage rooted at ``root`` (default: the
+    method's self) that are then modified in place (augmented assignment, element store, out=).  Flow-sensitive:
+    a hit needs a view binding among the reaching definitions of the name at the modifying statement.
+    """
+    root = root or (fi.params[0] if fi.params else None)
+    if root is None:
+        return 0, []
+    binds = [s for s in own_nodes(fi.node) if isinstance(s, ast.Assign) and len(s.targets) == 1 and isinstance(s.targets[0], ast.Name)]
+    direct = [s for s in binds if is_view_of(s.value, root) and not any(a in ast.unparse(s.value) for a in skip_attrs)]
+    if not direct:
+        return 0, []
+    rd = rdefs(repo, fi)
+    view_defs = {id(s): s for s in direct}
+    changed = True
+    while changed:
+        changed = False
+        for s in binds:
+            if id(s) in view_defs:
+                continue
+            src = _view_preserving_name(s.value)
+            if src is None:
+                continue
+            ds = rd.reaching_at_stmt(s, src)
+            if any(rd.def_stmt(d) is not None and id(rd.def_stmt(d)) in view_defs for d in ds):
+                view_defs[id(s)] = s
+                changed = True
+    hits = []
+    for a in own_nodes(fi.node):
+        name = None
+        if isinstance(a, ast.AugAssign) and isinstance(a.target, ast.Name):
+            name = a.target.id
+        elif isinstance(a, (ast.Assign, ast.AugAssign)):
+            for t_ in a.targets if isinstance(a, ast.Assign) else [a.target]:
+                if isinstance(t_, ast.Subscript) and isinstance(astq.strip_subs(t_), ast.Name):
+                    name = astq.strip_subs(t_).id
+        elif isinstance(a, ast.Call):
+            for k in a.keywords:
+                if k.arg == "out" and isinstance(k.value, ast.Name):
+                    name = k.value.id
+        if name is None:
+            continue
+        st = a if isinstance(a, ast.stmt) else enclosing_stmt(a)
+        for d in rd.reaching_at_stmt(st, name):
+            ds = rd.def_stmt(d)
+            if ds is not None and id(ds) in view_defs:
+                hits.append((st, name, view_defs[id(ds)]))
+                break
+    return len(view_defs), hits
